@@ -150,6 +150,10 @@ def run_case(case, ctx):
         if t["hmtx"][name][0] != exp_w:
             raise Violation("advance width differs", glyph=name, got=t["hmtx"][name][0], source=g.get("width"), expected=exp_w)
         got = otread.draw_cycles(gs, name)
+        if ver == 1:
+            csw = otread.charstring_width(t, name)
+            if csw != exp_w:
+                raise Violation("advance encoded in the CFF charstring differs from the rounded source width", glyph=name, got=csw, expected=exp_w)
         exp = []
         for pts, rev in R.resolve(gi, name):
             c = R.to_cubics(R.cycle(pts))
